@@ -7,7 +7,20 @@ from pathlib import Path
 
 sys.path.insert(0, str(Path(__file__).resolve().parent.parent))
 from harness import rules, layers  # noqa: E402
-from harness.props import c05  # noqa: E402
+from harness import common  # noqa: E402
+from harness.props import c05, c07  # noqa: E402
+
+
+def run_full(rule, arch):
+    """like rules.run_rule, with the complete text of an error as well"""
+    out = rules.run_rule(rule, arch)
+    if out[0] != "ERR":
+        return out
+    try:
+        rule.assert_applies(arch)
+    except BaseException as e:  # noqa: BLE001
+        return ("ERR", out[1], type(e).__name__, str(e))
+    return ("ERR", out[1], "no error the second time")
 
 
 def main():
@@ -15,6 +28,7 @@ def main():
     n = int(sys.argv[2])
     rng = random.Random(seed)
     h = hashlib.sha256()
+    dump = open(sys.argv[3], 'w') if len(sys.argv) > 3 else None
     count = 0
     for i in range(n):
         if i % 4 == 3:
@@ -37,8 +51,20 @@ def main():
             arch = rules.make_arch_direct(nodes, edges)
         h.update(repr(sorted(arch.modules)).encode())
         for spec in rules.all_shapes(*fp):
-            out = rules.run_rule(rules.build_rule(spec), arch)
+            out = run_full(rules.build_rule(spec), arch)
             h.update(repr(out).encode())
+            if dump:
+                dump.write(repr(("rule", mode, nodes, edges, rules._jsonable_spec(spec), out)) + "\n")
+            count += 1
+        # several partial names of which two or three match nothing: the error text names them
+        cand = [x for x in nodes if x != "r"]
+        pats = rng.sample(["*zz*", "*yy", "xx*", "*qq.q*", "*" + rng.choice(cand).split(".")[-1] + "*"], rng.randint(2, 4))
+        for spec in (dict(subj=("containing", pats), verbs=["should_not"], imp=True, exc=False, obj=("named", [rng.choice(cand)])),
+                     dict(subj=("named", [rng.choice(cand)]), verbs=["should"], imp=False, exc=False, obj=("containing", list(reversed(pats))))):
+            out = run_full(rules.build_rule(spec), arch)
+            h.update(repr(out).encode())
+            if dump:
+                dump.write(repr(("rule", mode, nodes, edges, rules._jsonable_spec(spec), out)) + "\n")
             count += 1
         c = c05.gen_case(rng)
         if c is not None:
@@ -48,7 +74,36 @@ def main():
             for hh in hs:
                 out = layers.run_lr_impl(hh, la)
                 h.update(repr(out).encode())
+                if dump:
+                    dump.write(repr(("layer_rule", c["nodes"], c["edges"], [list(x) for x in c["arch_calls"]], [list(x) if isinstance(x, tuple) else x for x in hh], out)) + "\n")
                 count += 1
+    # diagram rules, component names relative to a base module (with_base_module) and absolute; architectures that
+    # satisfy the diagram, half of it, nothing of it (several violated components: their order in the report counts)
+    from pytestarch import DiagramRule
+    d = common.scratch_dir()
+    try:
+        for i in range(max(4, n // 8)):
+            c = c07.gen_case(rng)
+            short = {full: sh for full, sh in zip(c["comps"], c["short"])}
+            p_rel = c07.write_puml(d, f"rel{i}.puml", c["short"], [(short[a], short[b]) for a, b in c["rel"]], random.Random(rng.randrange(1 << 30)))
+            p_abs = c07.write_puml(d, f"abs{i}.puml", c["comps"], c["rel"], random.Random(rng.randrange(1 << 30)))
+            extra = [(b, a) for a, b in c["rel"]][:3]
+            for edges in (c["edges"], c["edges"][: len(c["edges"]) // 2], [], c["edges"] + extra):
+                arch = rules.make_arch_direct(c["nodes"], edges)
+                for how, mk in (("relative names, with_base_module(%r)" % c["base"], lambda: DiagramRule().from_file(p_rel).with_base_module(c["base"])),
+                                ("absolute names, base_module_included_in_module_names", lambda: DiagramRule().from_file(p_abs).base_module_included_in_module_names()),
+                                ("relative names, with_base_module(%r), should_only_rule=False" % c["base"], lambda: DiagramRule(should_only_rule=False).from_file(p_rel).with_base_module(c["base"]))):
+                    try:
+                        out = rules.run_rule(mk(), arch)
+                    except Exception as e:  # noqa: BLE001
+                        out = ("EXC", type(e).__name__)
+                    h.update(repr(out).encode())
+                    if dump:
+                        dump.write(repr(("diagram_rule", how, (p_abs if how.startswith("abs") else p_rel).read_text(), c["nodes"], edges, out)) + "\n")
+                    count += 1
+    finally:
+        import shutil
+        shutil.rmtree(d, ignore_errors=True)
     print(h.hexdigest(), count)
 
 
